@@ -307,6 +307,22 @@ def hexec (flows : List (String × HFlowDef)) : Nat → HSt → Nat → List HSt
                   | none => (s2, .failed)
                   | some gc => hexec flows fuel (s2.setCtx u gc.1 gc.2) u rest
 
+/-- `FlowState.start_event` as it is — the StartFlow event with which the interpreter restarts an activated flow
+    (and starts a new instance at a `start_new_flow_instance` label): its own keys, then ALL entries of the
+    finished instance's `arguments`, i.e. also the parameters the original caller omitted. -/
+def restartArgs (f : Inst) (newUid parent : Val) : Ctx :=
+  update [(.name "flow_instance_uid", newUid), (.name "flow_id", .str f.flowId),
+          (.name "source_flow_instance_uid", parent), (.name "source_head_uid", .str "#head"),
+          (.name "flow_hierarchy_position", .str "#pos"), (.name "activated", .bool true)] f.arguments
+
+/-- `start_event` with fixes/C08-restart-reevaluates-omitted-defaults.diff: the keys recorded in
+    `default_argument_keys` (parameters the start did not provide) are not handed on. -/
+def restartArgsRepaired (f : Inst) (defaultKeys : List Key) (newUid parent : Val) : Ctx :=
+  update [(.name "flow_instance_uid", newUid), (.name "flow_id", .str f.flowId),
+          (.name "source_flow_instance_uid", parent), (.name "source_head_uid", .str "#head"),
+          (.name "flow_hierarchy_position", .str "#pos"), (.name "activated", .bool true)]
+    (f.arguments.filter fun kv => !defaultKeys.contains kv.1)
+
 def runMainH (flows : List (String × HFlowDef)) (fuel : Nat) (mainBody : List HStmt) : HSt × Outcome :=
   match createFlowInstance "main" [] [] [] with
   | .error e => ({}, .error e)
